@@ -28,7 +28,7 @@ impl Unit {
 
 pub const ABC: [Tok; 3] = ['a', 'b', 'c'];
 pub const ABCOMMA: [Tok; 3] = ['a', 'b', ','];
-pub const BRACKETS: [Tok; 5] = ['a', '(', ')', '[', ']'];
+pub const BRACKETS: [Tok; 7] = ['a', '(', ')', '[', ']', '{', '}'];
 const SPAN: Probes = Probes { span: true, state: false, ctx: false };
 const STATE: Probes = Probes { span: true, state: true, ctx: false };
 const CTX: Probes = Probes { span: false, state: false, ctx: true };
@@ -332,6 +332,9 @@ pub fn units(prop: &str, tier: Tier) -> Option<Vec<Unit>> {
                 v.push(class(&format!("kext-{n}"), &k, pick(3, 4)).cfg(c).probes(NOPROBE).alarm(alarm).unit());
             }
             v.push(class("kcore-rich", &en::k_core(), pick(4, 5)).alarm(alarm).unit());
+            // parsers reconfigured from the context (just(..).configure(seq), configured repetitions): the expected set names
+            // what was actually looked for
+            v.push(class("kctx-rich", &en::k_ctx(), pick(3, 4)).cfg(CfgId::RichCx).probes(NOPROBE).alarm(alarm).unit());
             for (n, c) in [("rich", CfgId::Rich), ("cheap", CfgId::Cheap)] {
                 v.push(
                     e1(&format!("kalt-deep-{n}"), format!("every Kalt grammar (try_map / try_map_with / filter / or_not over then / or) with <= {} nodes that contains a try_map, try_map_with or filter", pick(7, 8)), en::k_alt().upto(pick(7, 8)).into_iter().filter(|g| g.any_node(&|x| matches!(x, TryMap(_) | TryMapWith(_) | Filter(_)))).collect())
@@ -366,6 +369,9 @@ pub fn units(prop: &str, tier: Tier) -> Option<Vec<Unit>> {
                 class("k07-slice", &en::k07(true), pick(3, 3)).kind(KindId::Slice).alarm(alarm).unit(),
                 class("k07-str-through-clone", &en::k07(true), 3).alarm(alarm).clone_mode().unit(),
                 class("k07-stream", &en::k07(false), pick(3, 3)).kind(KindId::Stream).alarm(alarm).unit(),
+                // a reader-backed input: spans are positions, whatever the reader behind them is doing
+                class("k07-ioinput", &en::k07(false), pick(3, 3)).kind(KindId::Io).alarm(alarm).unit(),
+                class("k07-boxed-stream", &en::k07(false), 3).kind(KindId::BoxedStream).alarm(alarm).unit(),
                 // to_slice / MapExtra::slice on every other input kind that can hand out slices: sub-slices of the caller's
                 // buffer (same memory), spans re-based as documented
                 class("k07-u8", &en::k07(true), 3).kind(KindId::U8).alarm(alarm).unit(),
@@ -584,6 +590,8 @@ pub fn units(prop: &str, tier: Tier) -> Option<Vec<Unit>> {
                     .unit(),
                 rec_unit("leftrec", tier),
                 rec_unit("memo-shared-by-clone", tier),
+                // errors replayed from the memo table, with context frames
+                rec_unit("memo-context-errors", tier),
                 // a memoized rule that is active outside a nested input and entered again inside it
                 nested_unit("nested-recursive-memo", tier),
             ]
@@ -593,7 +601,7 @@ pub fn units(prop: &str, tier: Tier) -> Option<Vec<Unit>> {
                 .alpha(&['a', 'b'], pick(6, 7))
                 .alarm(ACC | VAL | EXT | EMI | EMC | PSP | PFO | PEX | CHK | PAN | NOE | EMF)
                 .unit(),
-            rec_unit("rec-templates", tier), rec_unit("rec-lifecycle", tier), rec_unit("rec-depth", tier), rec_unit("rec-define-twice", tier)],
+            rec_unit("rec-templates", tier), rec_unit("rec-erased-handles", tier), rec_unit("rec-lifecycle", tier), rec_unit("rec-depth", tier), rec_unit("rec-define-twice", tier)],
         "C13" => {
             let any = ACC | VAL | EXT | EMI | EMC | PSP | PFO | PEX | PCX | CHK | PAN | NOE;
             let dup = |gs: Vec<G>| -> Vec<G> { gs.into_iter().flat_map(|g| [g.clone(), g]).collect() };
@@ -615,6 +623,8 @@ pub fn units(prop: &str, tier: Tier) -> Option<Vec<Unit>> {
                 Unit::Custom { name: "threads".into(), run: Box::new(move |cx| eng_hist::run("threads", tier, cx)) },
                 // recursive parsers as values: clone / boxed / drop-the-original / parse histories
                 rec_unit("rec-lifecycle", tier),
+                // the recursion handle through boxed() / Rc / Box inside its own definition
+                rec_unit("rec-erased-handles", tier),
                 // a clone of a memoized parser is interchangeable with its original inside one grammar too
                 rec_unit("memo-shared-by-clone", tier),
             ]
@@ -729,6 +739,8 @@ pub fn units(prop: &str, tier: Tier) -> Option<Vec<Unit>> {
                     v.push(rec_unit("leftrec", tier));
                     // "no stack exhaustion": operator chains and nestings up to a million levels
                     v.push(rec_unit("rec-depth", tier));
+                    // replayed errors must not grow with the nesting depth
+                    v.push(rec_unit("memo-context-errors", tier));
                     v.push(e1("k02-iter-chains", "iterable parsers chained with IterParser::then (repeated / separated_by / or_not / into_iter links) x 7 sinks".into(), en::k02_chain(false)).alpha(&ABCOMMA, pick(4, 5)).probes(NOPROBE).alarm(alarm).unit());
                     // a hostile length prefix: a repetition told to expect usize::MAX / 4 items reports an error, nothing else
                     v.push(e1("ctx-huge-counts", "counts far beyond anything storable (usize::MAX / 4), as a static context and read from the input as a length prefix, x every way of configuring a repetition from the context x sinks".into(), en::ctx_huge_templates()).alpha(&['a', 'e', 'b'], pick(4, 5)).cfg(CfgId::RichCx).probes(NOPROBE).alarm(alarm | CHK).unit());
